@@ -725,7 +725,13 @@ func brokenTagRun(t *rapid.T) {
 		p = genProgram(t, genOpts{noise: true, maxPieces: 4})
 		openers := []string{"", "<%= for (x) in xs { %>\n<p>row</p>\n", "<%= if (b1) { %>\n<p>row</p>\n<% } else { %>\n<p>other</p>\n", "<%= pb(0) { %>\ninner\n",
 			"<%= if (b1) { %>\n<%= for (x) in xs { %>\n"}
-		tails := []string{"<% foo(n1", "<% foo(n1, %>", "<% let y = {\"a\": %>", "<%= [1, 2", "<%= (n1 + %>", "<%= n1 +", "<% let z = "}
+		tails := []string{"<% foo(n1", "<% foo(n1, %>", "<% let y = {\"a\": %>", "<%= [1, 2", "<%= (n1 + %>", "<%= n1 +", "<% let z = ",
+			// a for header that never closes its parenthesis: the parser looks ahead for ')' and gives up at a '{' in a
+			// later tag or at the end of the input; the error is the header's
+			"<%= for (x in xs %>a<% } %>\nlater <%= toJSON({\"a\": 1}) %>\n",
+			"<%= for (x in xs %>a\nlater <%= toJSON({\"a\": 1}) %>\n",
+			"<%= for (x, y in xs %>a\n\n<% let h = {\"a\": 1} %>\nend",
+			"<%= for (x in xs %>a\nnothing more\n"}
 		head := p.Main + "\n" + openers[uni(t, "eofopener", len(openers))]
 		p.Broken = tails[uni(t, "eoftail", len(tails))]
 		p.BrokenLine = 1 + strings.Count(head, "\n")
